@@ -175,7 +175,7 @@ CbRelease(s) ==
          THEN /\ CloseStreamVars(s, shutdown = 1)
               /\ kf' = IF st[s] = "half" /\ cbL[s] + cbR[s] = 0
                          THEN kf \cup {"no-close-callback-when-busy"} ELSE kf
-         ELSE /\ unread' = [unread EXCEPT ![s] = IF st[s] = "open" THEN 0 ELSE @]
+         ELSE /\ unread' = [unread EXCEPT ![s] = 0]     \* the running OnData reads everything that has arrived (D2)
               /\ UNCHANGED <<st, inTable, notified, cbR, cbL, rd, kf>>
     /\ UNCHANGED <<shutdown, serr, shutCh, pc, ret, lambdas, batch, conn, link, hup, inbox, flag, tableNil, waitExit,
                    peerClosed, fl, acc, bm, qm, sendLoop, snap, cur, ws, tdRuns, nsent, npc, lastOpen, lastSend, sendLate,
@@ -452,6 +452,7 @@ PendingReleased == /\ shutCh => (acc # "parked" /\ fl # "parked")
 \* "later calls fail": a Flush that starts after the session is shut down does not report success; nothing faults
 LaterFail == (lastSend = "ok" => ~sendLate) /\ lastSend # "fault"
 NoFault == lastSend # "fault"
+NoRace == "stream-op-races-unmap" \notin kf
 \* "every stream gets its close callback": never twice; exactly once when everything is over
 CallbackAtMostOnce == \A s \in CbStreams : cbL[s] + cbR[s] <= 1
 CallbackExactlyOnce == Final => \A s \in CbStreams : cbL[s] + cbR[s] = 1
